@@ -1,2 +1,2 @@
 from harness.corecheck import make
-MODULE = make("C14", ["CircusProofs/Props/C14.lean"], ["CircusProofs/Lemmas/Core.lean"])
+MODULE = make("C14", ["CircusProofs/Props/C14.lean"], ["CircusProofs/Core/Pres.lean"])
